@@ -15,6 +15,17 @@ import (
 )
 
 // Root is the /verif directory (overridable for snapshots started by `vp run`).
+// OutRoot is where evidence and replay files go: VERIF_OUT if set (scratch runs against a copy of the library, e.g. the
+// seeded-change matrix, must not overwrite the evidence of the real tree), else Root().
+func OutRoot() string {
+	if d := os.Getenv("VERIF_OUT"); d != "" {
+		os.MkdirAll(filepath.Join(d, "evidence"), 0o755)
+		os.MkdirAll(filepath.Join(d, "replays"), 0o755)
+		return d
+	}
+	return Root()
+}
+
 func Root() string {
 	if r := os.Getenv("VERIF_ROOT"); r != "" {
 		return r
@@ -273,7 +284,7 @@ func (r *Run) Finish() {
 	}
 	if r.Tier == "quick" || r.Tier == "thorough" {
 		b, _ := json.MarshalIndent(doc, "", " ")
-		p := filepath.Join(Root(), "evidence", r.ID+".json")
+		p := filepath.Join(OutRoot(), "evidence", r.ID+".json")
 		os.MkdirAll(filepath.Dir(p), 0o755)
 		if err := os.WriteFile(p, append(b, '\n'), 0o644); err != nil {
 			fmt.Fprintf(os.Stderr, "tool error: %v\n", err)
@@ -312,7 +323,7 @@ func (r *Run) Finish() {
 	if len(r.violations) == 0 {
 		os.Exit(0)
 	}
-	dir := filepath.Join(Root(), "replays")
+	dir := filepath.Join(OutRoot(), "replays")
 	os.MkdirAll(dir, 0o755)
 	for i, v := range r.violations {
 		p := filepath.Join(dir, fmt.Sprintf("%s-%d.json", r.ID, i))
